@@ -2814,7 +2814,12 @@ fn domain_case(ctx: &mut Ctx, i: usize) {
     let d = range(&mut rng, 2, 4);
     let s = range(&mut rng, 1, d - 1);
     let npoly = range(&mut rng, 1, 2);
-    let env = match make_env(ctx, &id, &mut rng, nv, d, s, npoly, true) {
+    let kinds = ["commit-degree", "commit-extra-variable", "commit-hiding-zero", "commit-hiding-large", "commit-no-rng", "open-degree", "open-short-point", "check-short-point", "batch-unknown-label", "batch-missing-eval", "batch-open-unknown-label"];
+    let kind = kinds[i % kinds.len()];
+    // the short-point openings are mostly non-hiding, so that the index into the point (and not the
+    // length assertion of `evaluate` on the blinding polynomial) is what refuses
+    let hiding = kind != "open-short-point" || i % 3 == 0;
+    let env = match make_env(ctx, &id, &mut rng, nv, d, s, npoly, hiding) {
         Some(e) => e,
         None => return,
     };
@@ -2822,8 +2827,6 @@ fn domain_case(ctx: &mut Ctx, i: usize) {
     let plain = env.plain();
     let blinds = env.blinds();
     let any_hiding = blinds.iter().any(|b| !b.is_zero());
-    let kinds = ["commit-degree", "commit-extra-variable", "commit-hiding-zero", "commit-hiding-large", "commit-no-rng", "open-degree", "open-short-point", "check-short-point", "batch-unknown-label", "batch-missing-eval", "batch-open-unknown-label"];
-    let kind = kinds[i % kinds.len()];
     let refused = |ctx: &mut Ctx, what: &str, ok: bool, txt: String| {
         if ok {
             ctx.rep.expect_fail(&id, &format!("pst13/out-of-domain-answered/{}", kind), what, txt);
